@@ -919,7 +919,7 @@ class LegCharge:
             assert chinfo == chargeinfo
             chinfo = chargeinfo
         if isinstance(charge, str):
-            charge = chinfo.names.index(charge)
+            charge = leg.chinfo.names.index(charge)  # `chinfo` no longer has that name
         return cls.from_qind(chinfo, leg.slices, np.delete(leg.charges, charge, 1), leg.qconj)
 
     @classmethod
